@@ -46,6 +46,10 @@ def build(features=(), target=None, curves=False):
         subprocess.run(["python3", V + "/lib/gen_shims.py"], check=True, capture_output=True)
     old = open(stamp).read() if os.path.exists(stamp) else ""
     env = dict(os.environ, CARGO_NET_OFFLINE="true")
+    if "asm" in features:
+        # the x86-64 assembly backend of ark-ff is selected by cfg(target_feature = "bmi2" / "adx"); RUSTFLAGS replaces the
+        # rustflags of .cargo/config.toml, so the guard cfg is repeated here
+        env["RUSTFLAGS"] = "--cfg arkworks_rs_algebra_verif --check-cfg cfg(arkworks_rs_algebra_verif) -C target-feature=+bmi2,+adx"
     if old != cur and os.path.exists(tdir):
         # mtimes of a restored tree may be older than the artifacts: force cargo to look again
         subprocess.run(["cargo", "clean", "--release", "-p", "ark-ff", "-p", "ark-ec", "-p", "ark-poly",
